@@ -235,31 +235,51 @@ struct HistHarness {
         rx::Registry r = live_registry(orig, morig);
         unsigned reg = registered_classes();
         std::string sig;
+        // every legal call, checked once in reverse order first: the first call
+        // after an update is then on the same method and classes as the last
+        // call before it (anything remembered across calls would be stale)
+        auto check_call = [&](int li, const int8_t* a, bool record) {
+            const rx::Meth& m = r.meths[li];
+            int e0 = rx::expected_call(r.po, m, a);
+            int exp = e0 >= 0 ? orig[li][e0] : e0;
+            hx::set_dyn(a, m.arity);
+            // observations in POOL numbering: bodies return their pool
+            // index, pointers are classified against the pool's functions
+            rx::Meth pm = pool.full.meths[morig[li]];
+            hx::Obs ob = hx::observe_call(pm, a);
+            COUNT("calls", 2);
+            if (record)
+                sig += std::to_string(ob.outcome) + ",";
+            if (ob.outcome != exp || ob.resolved != exp)
+                out.push_back(
+                    {"wrong_outcome_after_history",
+                     "history=" + hist + " method=" + std::to_string(morig[li]) +
+                         " args=(" + tuple_text(a, m.arity) + ") expected=" +
+                         std::to_string(exp) + " ran=" +
+                         std::to_string(ob.outcome) + " resolved=" +
+                         std::to_string(ob.resolved) + (record ? "" : " (reverse pass)")});
+        };
+        std::vector<std::vector<std::array<int8_t, rx::MAXA>>> tuples(r.nm);
         for (int li = 0; li < r.nm; ++li) {
             const rx::Meth& m = r.meths[li];
-            auto name = [&](int o) { return o >= 0 ? orig[li][o] : o; };
-            sig += "M" + std::to_string(morig[li]) + ":";
             rx::for_each_tuple(r.po, m, [&](const int8_t* a) {
                 for (int k = 0; k < m.arity; ++k)
                     if (!(reg >> a[k] & 1))
                         return; // only registered classes can be passed
-                int exp = name(rx::expected_call(r.po, m, a));
-                hx::set_dyn(a, m.arity);
-                // observations in POOL numbering: bodies return their pool
-                // index, pointers are classified against the pool's functions
-                rx::Meth pm = pool.full.meths[morig[li]];
-                hx::Obs ob = hx::observe_call(pm, a);
-                COUNT("calls", 2);
-                sig += std::to_string(ob.outcome) + ",";
-                if (ob.outcome != exp || ob.resolved != exp)
-                    out.push_back(
-                        {"wrong_outcome_after_history",
-                         "history=" + hist + " method=" + std::to_string(morig[li]) +
-                             " args=(" + tuple_text(a, m.arity) + ") expected=" +
-                             std::to_string(exp) + " ran=" +
-                             std::to_string(ob.outcome) + " resolved=" +
-                             std::to_string(ob.resolved)});
+                std::array<int8_t, rx::MAXA> t{};
+                memcpy(t.data(), a, m.arity);
+                tuples[li].push_back(t);
             });
+        }
+        for (int li = r.nm - 1; li >= 0; --li)
+            for (size_t i = tuples[li].size(); i-- > 0;)
+                check_call(li, tuples[li][i].data(), false);
+        for (int li = 0; li < r.nm; ++li) {
+            const rx::Meth& m = r.meths[li];
+            auto name = [&](int o) { return o >= 0 ? orig[li][o] : o; };
+            sig += "M" + std::to_string(morig[li]) + ":";
+            for (auto& t : tuples[li])
+                check_call(li, t.data(), true);
             sig += "N:";
             for (int di = 0; di < m.nd; ++di) {
                 int exp = name(rx::expected_next(r.po, m, di));
